@@ -24,10 +24,10 @@ class F64Backend:
 class DecBackend:
     name = "dec"
     cfg = "dec"
-    header = (HEADER_COMMON + "From QV Require Import Amount.DecModel Amount.Dec.\n"
+    header = (HEADER_COMMON + "From QV Require Import Amount.DecModel Amount.Dec Amount.DecCodec.\n"
               "Definition AM := DEC.\nDefinition sa : A AM -> string := show_dec.\nDefinition pa (c n : Z) : A AM := mkdec c n.\n"
-              "Definition ENC : A AM -> sval := fun d => VStr (dec_to_string d).\nDefinition DCD : sval -> option (A AM) := fun v => match v with VStr s => dec_from_str s | _ => None end.\n")
-    targets = ["Amount/Dec.vo", "Proofs/Eval.vo", "Gen/Catalogue.vo", "Gen/KernelsFmt.vo", "Macro/TempInst.vo", "Rt/Serde.vo"]
+              "Definition ENC : A AM -> sval := enc_dec.\nDefinition DCD : sval -> option (A AM) := dcd_dec.\n")
+    targets = ["Amount/Dec.vo", "Amount/DecCodec.vo", "Proofs/Eval.vo", "Gen/Catalogue.vo", "Gen/KernelsFmt.vo", "Macro/TempInst.vo", "Rt/Serde.vo"]
 
     @staticmethod
     def amt(tok):
